@@ -70,7 +70,8 @@ def main():
         elif a.checks:
             checks = a.checks.split(",")
         elif meta.get("property"):
-            checks = [meta["property"]]
+            # a kept change records which check caught it when it was confirmed (it may live outside its property's anchor files)
+            checks = (meta.get("confirmed_here", {}).get("caught_by") or [meta["property"]])
         res = {}
         for c in checks:
             t0 = time.time()
